@@ -59,7 +59,7 @@ CLAIMED = {
             "Trusts refm/auth_ref.rs (self-checked against the outcomes RFC 4592 §2.2.1 lists). Ten known findings (three are the RFC 4592 gaps upstream #[ignore]s) are excluded by signature; every query is judged and any deviation outside those signatures is a VIOLATION. Additional-section contents, record order and TTLs of synthesised records are not asserted.",
             "DESIGN.md §7 C10"),
     "C11": ("exploration",
-            "property-based testing (proptest): generated catalogs × ACLs × request byte strings (valid, mutated, hostile, random) through the real front door; oracle = decision table from the statement (response count, ID/question echo, rcode ∈ allowed set, longest-suffix zone marker, probe query after every hostile request)",
+            "property-based testing (proptest): generated catalogs × ACLs × request byte strings (valid, mutated, hostile, random) through the real front door; oracle = decision table from the statement (response count, ID/question echo, rcode ∈ allowed set, longest-suffix zone marker, probe query after every hostile request); thorough tier adds a coverage-guided libFuzzer campaign (fz_frontdoor) whose target applies the same oracle to the request octets",
             "Catalogs with nested/sibling/root zones and chained handlers, allow/deny sets with nested v4/v6 prefixes, UDP/TCP; requests drawn from valid queries, every opcode, EDNS versions, QR=1, runts, QDCOUNT 0/2, garbage, byte mutations and random bytes go through VerifFrontDoor::handle. Responses sent must be 0 for runts/responses and exactly 1 otherwise with QR=1, the request's ID and (when it parsed) question; rcode within the set of codes whose condition holds; TXT marker = longest-suffix origin; no panic; a fixed probe still answered afterwards. OPT/TSIG outside the additional section and class-IN A/AAAA records with an impossible RDLENGTH (non-UPDATE) count as malformed bodies. The server's TCP read-loop wrapper (TimeoutStream) is driven on a paused clock with a consumer that is busy between reads: a request that has arrived is delivered however long the previous one took.",
             "Trusts refm/frontdoor_ref.rs (ACL model from the access.rs rustdoc). Where the statement fixes no precedence between gates the oracle accepts the set.",
             "DESIGN.md §7 C11"),
@@ -104,7 +104,7 @@ CLAIMED = {
             "Trusts refm/authsim.rs. The query bound detects explosive recursion, not off-by-one. Two known findings (out-of-zone record in negative-answer authority; NS address taken from an unrelated answer record) are excluded by signature.",
             "DESIGN.md §7 C19"),
     "C20": ("exploration",
-            "property-based testing (proptest): record sets rendered by an independent RFC 1035 §5 master-file printer with per-line random layout, parsed by hickory and compared with the denoted records; mutated/garbage texts for robustness under a CPU-time watchdog",
+            "property-based testing (proptest): record sets rendered by an independent RFC 1035 §5 master-file printer with per-line random layout, parsed by hickory and compared with the denoted records; mutated/garbage texts for robustness under a CPU-time watchdog; thorough tier adds a coverage-guided libFuzzer campaign (fz_zonefile) on the robustness clause",
             "Record sets of 22 parser-supported types are printed with randomised layout (absolute/relative/@/inherited owners, TTL explicit/$TTL/previous, class present/absent, $ORIGIN switches, comments, blank lines, parenthesised continuation, quoted/unquoted strings, escaped dots/quotes/backslashes, tabs, CRLF, missing final newline, long runs) and must load to exactly the denoted (owner, class, type, TTL, RDATA) set; names padded to exactly 255 octets are included. include_layout moves runs of lines into $INCLUDEd files (one level or nested, relative/absolute path, $ORIGIN switches inside, with/without final newline) written to a scratch directory and demands the same record set (RFC 1035 5.1: the parent's origin is unaffected); a self-including file must be refused. Garbage (mutated renderings, token soup, unbalanced quotes/parens, huge numbers, $INCLUDE, random bytes) must give Ok or Err, never a panic or a spin.",
             "Trusts refm/zonefile_printer.rs. A failing case is attributed to a layout feature only if the clean rendering loads correctly and the feature alone still breaks it; the known findings are excluded by such signatures, everything else is a VIOLATION.",
             "DESIGN.md §7 C20"),
